@@ -43,9 +43,12 @@ func c12Judge(pats []string, m pattern.Mode, s string) (class, detail string, no
 	status := patWellFormed
 	for _, p := range pats {
 		e, st := parsePattern([]rune(p))
-		if st == patMalformed {
+		switch {
+		case st == patMalformed:
 			status = patMalformed
-		} else if st == patGray && status != patMalformed {
+		case st == patGrayAny && status != patMalformed:
+			status = patGrayAny
+		case st == patGray && status == patWellFormed:
 			status = patGray
 		}
 		es = append(es, e)
@@ -55,6 +58,9 @@ func c12Judge(pats []string, m pattern.Mode, s string) (class, detail string, no
 		return "panic", fmt.Sprintf("Match(%q, %d, %q) panicked: %v", pats, m, s, pan), true
 	}
 	isErr := err != nil && err != pattern.NoMatch
+	if status == patGrayAny {
+		return "", "", false
+	}
 	switch status {
 	case patMalformed:
 		if !isErr {
@@ -184,6 +190,29 @@ func c12Run(w *W) {
 				for _, s := range subj2 {
 					for _, m := range c12Modes {
 						c12One(w, []string{ps}, m, s)
+					}
+				}
+			}
+		}
+	}
+	// bracket expressions up to 7 symbols: optional negation, optional leading ']', ≤ 3 members, closing ']', with context
+	var members []string
+	genRunes([]rune("ab*?[\\-.!^]"), 3, func(m []rune) { members = append(members, string(m)) })
+	subj4 := []string{"", "a", "b", "*", "?", "[", "]", "\\", "-", ".", "!", "^", "ab", "a]", "]a", ".]", "a\n"}
+	for _, neg := range []string{"", "!", "^"} {
+		for _, lead := range []string{"", "]"} {
+			for _, mem := range members {
+				if !w.Mine() {
+					continue
+				}
+				for _, ctx := range [][2]string{{"", ""}, {"a", ""}, {"", "*"}, {"?", "a"}} {
+					ps := ctx[0] + "[" + neg + lead + mem + "]" + ctx[1]
+					w.Announce("pattern " + ps)
+					w.Count("states", 1)
+					for _, s := range subj4 {
+						for _, m := range c12Modes {
+							c12One(w, []string{ps}, m, s)
+						}
 					}
 				}
 			}
